@@ -124,6 +124,12 @@ class Registry:
             left, right = atom.left, atom.comparators[0]
             if isinstance(op, ast.In):
                 if U(right) == 'self.reserved_events':
+                    tok = names.get('__tok__', {})
+                    if isinstance(left, ast.Name) and \
+                            tok.get(left.id) == 'event':
+                        # the event is literally '*': never reserved
+                        return self.reserved if names[left.id] == EV \
+                            else False
                     if self.key(left, names) != EV:
                         raise Unknown(U(atom))
                     return self.reserved
@@ -139,6 +145,14 @@ class Registry:
             if isinstance(op, ast.Is) and is_const(right, None):
                 return self.absval(left, names) is None
             if isinstance(op, ast.Eq):
+                # comparison of an event / namespace name with the literal
+                # '*' (or with each other)
+                def is_key(n):
+                    return is_const(n, '*') or (
+                        isinstance(n, ast.Name) and n.id in names and
+                        names[n.id] != 'ARGS')
+                if is_key(left) and is_key(right):
+                    return self.key(left, names) == self.key(right, names)
                 a = self.absval(left, names)
                 b = self.absval(right, names)
                 return a == b
@@ -159,8 +173,9 @@ def flatten_args(node, names):
             if isinstance(e, ast.Starred):
                 out += flatten_args(e.value, names)
             elif isinstance(e, ast.Name) and e.id in names:
-                out.append({EV: 'event', NS: 'namespace'}.get(
-                    names[e.id], e.id))
+                tok = names.get('__tok__', {})
+                out.append(tok.get(e.id) or {EV: 'event', NS: 'namespace'}
+                           .get(names[e.id], e.id))
             else:
                 raise Unknown('argument ' + U(e))
         return out
@@ -195,6 +210,82 @@ def spec_event(reg):
         return Handler('handlers', STAR, STAR), \
             ['event', 'namespace', '*args']
     return None, ['*args']
+
+
+def spec_event_star_event(reg):
+    """the event is literally named '*': there is no specific handler for
+    it (the key '*' IS the catch-all), so it is routed like any event
+    without a specific handler - and the catch-all receives its name"""
+    if NS in reg.top and STAR in reg.subs[NS]:
+        return Handler('handlers', NS, STAR), ['event', '*args']
+    if STAR in reg.top and STAR in reg.subs[STAR]:
+        return Handler('handlers', STAR, STAR), \
+            ['event', 'namespace', '*args']
+    return None, ['*args']
+
+
+def spec_event_star_ns(reg):
+    """the namespace is literally named '*' (possible with serializers that
+    do not constrain it): it has no handlers of its own, the catch-all
+    namespace's handlers receive its name"""
+    if STAR in reg.top and EV in reg.subs[STAR]:
+        return Handler('handlers', STAR, EV), ['namespace', '*args']
+    if STAR in reg.top and not reg.reserved and STAR in reg.subs[STAR]:
+        return Handler('handlers', STAR, STAR), \
+            ['event', 'namespace', '*args']
+    return None, ['*args']
+
+
+def _tok(d):
+    return {[k for k, v in d.items() if v == EV][0]: 'event',
+            [k for k, v in d.items() if v == NS][0]: 'namespace'}
+
+
+def names_event_star_event(f):
+    d = names_event(f)
+    tok = _tok(d)
+    ev = [k for k, v in d.items() if v == EV][0]
+    d[ev] = STAR
+    d['__tok__'] = tok
+    return d
+
+
+def names_event_star_ns(f):
+    d = names_event(f)
+    tok = _tok(d)
+    ns = [k for k, v in d.items() if v == NS][0]
+    d[ns] = STAR
+    d['__tok__'] = tok
+    return d
+
+
+def names_ns_star(f):
+    d = names_ns(f)
+    ns = [k for k, v in d.items() if v == NS][0]
+    d['__tok__'] = {ns: 'namespace'}
+    d[ns] = STAR
+    return d
+
+
+def ns_states_star():
+    for has_star in (False, True):
+        yield Registry({STAR} if has_star else set(), {}, False,
+                       table='namespace_handlers', two_level=False)
+
+
+def spec_ns_star(reg):
+    if STAR in reg.top:
+        return Handler('namespace_handlers', STAR), ['namespace', '*args']
+    return None, ['*args']
+
+
+def star_states(kind):
+    for reg in event_states():
+        if kind == 'event' and reg.reserved:
+            continue          # '*' is not a reserved event
+        if kind == 'ns' and NS in reg.top:
+            continue          # the namespace key coincides with '*'
+        yield reg
 
 
 def ns_states():
@@ -683,6 +774,20 @@ def run(ctx):
         rows += table_rule(ctx, cname, '_get_event_handler', event_states,
                            spec_event, names_event)
     ctx.extra['event_table_rows'] = rows
+    ctx.rule('C13.R7', 'names that coincide with the catch-all key: an event '
+             'or a namespace literally named "*" (a client chooses the event '
+             'name; msgpack does not constrain the namespace) is routed to '
+             'the catch-all targets WITH its name prepended, never matched '
+             'as if "*" were a specific key', floor=40)
+    for cname in ('BaseServer', 'BaseClient'):
+        table_rule(ctx, cname, '_get_event_handler',
+                   lambda: star_states('event'), spec_event_star_event,
+                   names_event_star_event)
+        table_rule(ctx, cname, '_get_event_handler',
+                   lambda: star_states('ns'), spec_event_star_ns,
+                   names_event_star_ns)
+        table_rule(ctx, cname, '_get_namespace_handler', ns_states_star,
+                   spec_ns_star, names_ns_star)
     ctx.rule('C13.R6', 'the handler tables of different namespaces are '
              'distinct objects', floor=2)
     from .common import shared_table_aliasing
